@@ -1339,6 +1339,17 @@ def run(ctx, rep):
     r06q(ctx, rep)
     r06t(ctx, rep)
     r06u(ctx, rep)
+    # R06v: the n-ary list walks of the prelude need a list to end on
+    from . import C14
+    sub = type(rep)(rep.prop)
+    C14.r14m(ctx, sub)
+    rep.rule("R06v", "a call that cannot end is refused: the prelude's map and for-each end their walk when some list is exhausted, so "
+             "their formals must require at least one list — with none, (map f) applies f for ever and conses without bound.")
+    for o in sub.obs:
+        if o.key.endswith("|requires-a-list"):
+            o.rule = "R06v"
+            o.key = o.key.replace("R14m", "R06v", 1)
+            rep.obs.append(o)
     # R06n: the arithmetic arms of number.rs, arm by arm (same rule as C08's R08a)
     sub = type(rep)(rep.prop)
     numeric.r08a(ctx, sub)
